@@ -30,6 +30,23 @@ func (b bareItem) item() ap.Item {
 		return &ap.Activity{ID: ap.ID(b.ID), Type: ap.ActivityVocabularyType(b.Typ), Actor: ap.IRI("https://example.com/~sally"),
 			Object: ap.IRI("https://example.com/track/1"), Instrument: ap.IRI("https://example.com/service"), Target: ap.IRI("https://example.com/t"),
 			Name: ap.NaturalLanguageValues{{Ref: ap.NilLangRef, Value: ap.Content("same name")}}}
+	case "rich-actor":
+		// the same handle on two servers: actors that agree in everything but their id
+		return &ap.Actor{ID: ap.ID(b.ID), Type: ap.ActivityVocabularyType(b.Typ),
+			PreferredUsername: ap.NaturalLanguageValues{{Ref: ap.NilLangRef, Value: ap.Content("jdoe")}},
+			Name:              ap.NaturalLanguageValues{{Ref: "en", Value: ap.Content("J. Doe")}},
+			Summary:           ap.NaturalLanguageValues{{Ref: ap.NilLangRef, Value: ap.Content("the same words")}},
+			Icon:              ap.IRI("https://example.com/icon.png"), URL: ap.IRI("https://example.com/~jdoe"),
+			Endpoints: &ap.Endpoints{SharedInbox: ap.IRI("https://example.com/inbox")},
+			PublicKey: ap.PublicKey{PublicKeyPem: "-----BEGIN PUBLIC KEY-----"}}
+	case "rich-object":
+		// a post and its repost elsewhere: objects that agree in everything but their id
+		return &ap.Object{ID: ap.ID(b.ID), Type: ap.ActivityVocabularyType(b.Typ),
+			Content:      ap.NaturalLanguageValues{{Ref: ap.NilLangRef, Value: ap.Content("the same words")}},
+			Name:         ap.NaturalLanguageValues{{Ref: "en", Value: ap.Content("a title")}},
+			AttributedTo: ap.IRI("https://example.com/~jdoe"), InReplyTo: ap.IRI("https://example.com/n/0"),
+			To: ap.ItemCollection{ap.PublicNS}, MediaType: "text/plain", URL: ap.IRI("https://example.com/n"),
+			Source: ap.Source{Content: ap.NaturalLanguageValues{{Ref: ap.NilLangRef, Value: ap.Content("src")}}, MediaType: "text/markdown"}}
 	}
 	panic("shape")
 }
@@ -92,8 +109,14 @@ func describe(it ap.Item) [3]string {
 	case ap.IRI:
 		return [3]string{"iri", string(v), ""}
 	case *ap.Object:
+		if len(v.Content) > 0 {
+			return [3]string{"rich-object", string(v.ID), string(v.Type)}
+		}
 		return [3]string{"object", string(v.ID), string(v.Type)}
 	case *ap.Actor:
+		if len(v.PreferredUsername) > 0 {
+			return [3]string{"rich-actor", string(v.ID), string(v.Type)}
+		}
 		return [3]string{"actor", string(v.ID), string(v.Type)}
 	case *ap.Activity:
 		if v.Instrument != nil {
@@ -247,6 +270,14 @@ var c13RichPool = []bareItem{
 	{"object", "https://example.com/track/1", "Audio"},
 }
 
+// … actors and objects likewise
+var c13RichPool2 = []bareItem{
+	{"rich-actor", "https://example.com/~jdoe", "Person"},
+	{"rich-actor", "https://social.example/~jdoe", "Person"},
+	{"rich-object", "https://example.com/n/1", "Note"},
+	{"rich-object", "https://social.example/n/1", "Note"},
+}
+
 // a second pool with pairwise distinct but path-nested ids (an actor and things below it)
 var c13NestedPool = []bareItem{
 	{"activity", "https://example.com/actors/jdoe/outbox/1", "Create"},
@@ -333,6 +364,9 @@ func init() {
 					pool = c13NestedPool
 				} else if i%4 == 2 {
 					pool = c13RichPool
+					if i%8 == 6 {
+						pool = c13RichPool2
+					}
 				} else if i%4 == 3 {
 					pool = c13OpaquePool
 					if i%8 == 7 {
